@@ -84,6 +84,7 @@ class BacklogScenario(NetScenario):
         w.add_peer(RefServer("B", *B))
         st.subs = []
         st.open = {"A": None, "B": None}      # model: the Sub whose exchange is open, per remote
+        st.used = set()
         st.queue = {"A": [], "B": []}         # model: submitted CONs not yet transmitted, FIFO
         w.on_emit.append(lambda dg: self.on_wire(st, dg))
         n = 0
@@ -163,6 +164,10 @@ class BacklogScenario(NetScenario):
                 out.append(("rst:" + srv, 1))
                 out.append(("icmp:" + srv, 1))
                 out.append(("senderr:" + srv, 1))
+                if s.obj is not None and not s.obj.response.done() and "cancel-head" not in st.used:
+                    # the sender loses interest in the request whose exchange is open: the exchange itself goes on until it is
+                    # acknowledged (by whatever the peer sends under that message ID), reset or given up
+                    out.append(("cancel-head:" + srv, 1))
             # the sender withdraws a request that is still held back
             for q in st.queue[srv]:
                 if q.obj is not None and q.first_tx is None and not q.obj.response.done():
@@ -191,6 +196,12 @@ class BacklogScenario(NetScenario):
             q.cancelled = True
             return
         s = st.open[srv]
+        if kind == "cancel-head":
+            st.used.add("cancel-head")
+            s.obj.response.cancel()
+            w.loop.settle()
+            s.cancelled_head = True
+            return
         if kind == "rst":
             st.open[srv] = None     # the model closes the exchange when the RST is processed
             w.inject(SRV[srv], CLI, rc.encode((rc.RST, 0, s.mid, b"", [], b"")))
@@ -246,9 +257,10 @@ class BacklogScenario(NetScenario):
             s = st.open[srv]
             if s is not None and s.obj is not None and s.obj.response.done() and not s.obj.response.cancelled() and isinstance(s.obj.response.exception(), error.TimeoutError):
                 self.remote_error(st, srv, "timeout")
-            elif s is not None and s.obj is None and not any(r.sockaddr[:2] == SRV[srv] for (r, mid) in st.cli.mman._active_exchanges) \
+            elif s is not None and (s.obj is None or getattr(s, "cancelled_head", False)) \
+                    and not any(r.sockaddr[:2] == SRV[srv] for (r, mid) in st.cli.mman._active_exchanges) \
                     and s.first_tx is not None and st.world.loop.time() - s.first_tx > 40:
-                self.remote_error(st, srv, "timeout")     # the separate response itself ran out of retransmissions
+                self.remote_error(st, srv, "timeout")     # the separate response (or a request nobody waits for any more) ran out of retransmissions
         # a separate response produced by a handler in this step goes out at once unless an exchange is open
         r = st.resp
         if r is not None and r.first_tx is None and not r.dropped and st.open["A"] is None and st.queue["A"] and st.queue["A"][0] is r:
